@@ -35,7 +35,7 @@ from __future__ import annotations
 
 import re
 import uuid
-from urllib.parse import quote
+from urllib.parse import quote, unquote
 
 UUID_RX = (r"[A-Fa-f0-9]{8}-[A-Fa-f0-9]{4}-[A-Fa-f0-9]{4}-[A-Fa-f0-9]{4}-[A-Fa-f0-9]{12}")
 
@@ -249,7 +249,7 @@ class Adm:
 class Expect:
     """What the statement allows for one (path, method)."""
     __slots__ = ("ok_match", "ok_redirect", "allow_404", "allow_405", "lo405", "hi405", "adms",
-                 "mine", "other", "decided")
+                 "mine", "other", "decided", "ref", "p", "method", "long_run", "lenient")
 
     def describe(self):
         return {"match": sorted(map(repr, self.ok_match)), "redirect": sorted(self.ok_redirect),
@@ -278,10 +278,12 @@ class RefMap:
                     out.append((e[0], "R", p + "/", e[1]))
                 else:
                     out.append((e[0], "L", None, e[1]))
-        if not r.trail and not r.strict and p.endswith("/") and len(p) > 1:
+        if not r.strict and p.endswith("/") and len(p) > 1:
+            # a rule that is not strict about slashes tolerates one extra trailing slash: documented for
+            # leaf rules; for a branch rule ("/a/" asked as "/a//") the statement is silent -> not definite
             e = r.exact(p[:-1], lenient)
             if e is not None:
-                out.append((e[0], "L", None, e[1]))
+                out.append((e[0], "L", None, e[1] and not r.trail))
         return out
 
     def admissions(self, p: str, lenient_fixed: bool = False):
@@ -299,18 +301,28 @@ class RefMap:
             if pm is not None and r.merge:
                 for args, kind, target, definite in self._direct(r, pm, lenient_fixed):
                     out.append(Adm(r, args, "M", target if kind == "R" else pm, definite and not long_run))
+            elif pm is not None:
+                # the map merges, this rule opted out (merge_slashes=False): not admitted - except that a
+                # strict branch rule reached without its trailing slash is redirected anyway (the slash
+                # redirect is decided before the rule's own setting is looked at); the statement does not
+                # say which setting wins there, so that one is accepted either way
+                for args, kind, target, _definite in self._direct(r, pm, lenient_fixed):
+                    if kind == "R":
+                        out.append(Adm(r, args, "M", target, False))
         self._adm_cache[k] = out
         return out
 
     # ------------------------------------------------------------------ expectation
-    def expect(self, p: str, method: str) -> Expect:
-        adms = self.admissions(p)
+    def expect(self, p: str, method: str, lenient_fixed: bool = False) -> Expect:
+        adms = self.admissions(p, lenient_fixed)
         mine = [a for a in adms if a.rule.method_ok(method)]
         other = [a for a in adms if not a.rule.method_ok(method)]
         direct_def = [a for a in mine if a.definite and a.kind != "M"]
         match_def = [a for a in direct_def if a.kind in "XL"]
         ex = Expect()
         ex.adms, ex.mine, ex.other = adms, mine, other
+        ex.ref, ex.p, ex.method, ex.lenient = self, p, method, lenient_fixed
+        ex.long_run = self.merge and "///" in p
         ex.ok_match = {
             a.key for a in mine
             if a.kind in "XL" and not any(better(d.rule, a.rule) is True for d in direct_def)
@@ -333,7 +345,8 @@ class RefMap:
                 lo |= a.rule.methods
         ex.lo405, ex.hi405 = frozenset(lo), frozenset(hi)
         # does the documented order single out one result? (then it must not depend on insertion order)
-        ex.decided = len(ex.ok_match) + len(ex.ok_redirect) + int(ex.allow_404) + int(ex.allow_405) == 1
+        ex.decided = (len(ex.ok_match) + len(ex.ok_redirect) + int(ex.allow_404) + int(ex.allow_405) == 1
+                      and not (ex.allow_405 and lo != hi) and not ex.long_run)
         return ex
 
     def acceptable_results(self, p: str, method: str):
@@ -367,6 +380,14 @@ def judge(ex: Expect, outcome, url_prefix: str = "http://h"):
         for a in ex.mine:
             if a.kind in "RM" and url == url_prefix + quote(a.target, safe=SAFE):
                 return "redirect-not-best"
+        if ex.long_run and url.startswith(url_prefix):
+            # runs of >= 3 slashes: the statement is silent; a redirect that removes slashes from runs and
+            # lands on a path some rule admits for this method is accepted
+            t = unquote(url[len(url_prefix):])
+            if (quote(t, safe=SAFE) == url[len(url_prefix):] and t != ex.p and len(t) < len(ex.p)
+                    and merged(t) == merged(ex.p)
+                    and any(a.kind in "XL" and a.rule.method_ok(ex.method) for a in ex.ref.admissions(t, ex.lenient))):
+                return None
         if any(a.kind in "RM" for a in ex.mine):
             return "redirect-wrong-target"
         return "redirect-unjustified"
@@ -385,3 +406,91 @@ def judge(ex: Expect, outcome, url_prefix: str = "http://h"):
             return "404-but-admitted"
         return "404-should-405"
     return "unexpected-" + str(outcome[1] if len(outcome) > 1 else k)
+
+
+# ------------------------------------------------------------------ path sets generated from a map
+
+import itertools  # noqa: E402
+
+UU = "12345678-1234-5678-1234-567812345678"
+
+WITNESS = {
+    "string": ["x", "xy"],
+    "string(length=2)": ["x", "xy", "xyz"],
+    "string(minlength=2)": ["x", "xy"],
+    "int": ["1", "12"],
+    "int(fixed_digits=2)": ["1", "12", "123"],
+    "float": ["1.5", "1"],
+    "any(a,b)": ["a", "b", "c"],
+    "uuid": [UU, UU[:-1]],
+    "path": ["x"],
+}
+MISS = "zz"
+
+
+def seg_tokens(s, extra=None):
+    if s[0] == "lit":
+        return [s[1]]
+    _k, pre, conv, _n, post = s
+    ws = WITNESS[conv] + (list(extra.get(CONVS[conv][2], ())) if extra else [])
+    out = [pre + w + post for w in ws]
+    if pre or post:
+        out.append(pre + post)          # empty variable
+        out.append(WITNESS[conv][0])    # affix missing
+    return out
+
+
+def path_set(specs, extra=None):
+    """Closed path set generated from the map's own segments (extra: conv class -> more witness tokens)."""
+    rules = [RefRule(sp, i, True, True) for i, sp in enumerate(specs)]
+    lmax = max([len(r.segs) + (1 if r.has_path else 0) for r in rules] + [1])
+    pos: list[list[str]] = []
+    for i in range(lmax):
+        toks: list[str] = []
+        for r in rules:
+            if i < len(r.segs):
+                toks += seg_tokens(r.segs[i], extra)
+            elif r.has_path:
+                toks += ["x"]
+        toks.append(MISS)
+        seen, uniq = set(), []
+        for t in toks:
+            if t not in seen:
+                seen.add(t)
+                uniq.append(t)
+        pos.append(uniq)
+    bases = []
+    for n in range(1, lmax + 1):
+        for t in itertools.product(*pos[:n]):
+            bases.append("/" + "/".join(t))
+    bases.append("/" + "/".join([p[0] for p in pos] + [MISS]))      # one path that is too long
+    out = ["/", "//", "///"]
+    seen = set(out)
+
+    def add(p):
+        if p not in seen:
+            seen.add(p)
+            out.append(p)
+
+    for b in bases:
+        add(b)
+        add(b + "/")
+        near = any(r.exact(b, True) or r.exact(b + "/", True) for r in rules)
+        if not near:
+            continue
+        add(b + "//")
+        add(b + "///")
+        add("/" + b)
+        add("/" + b + "/")
+        segs = b.split("/")[1:]
+        for cut in range(1, len(segs)):
+            head, tail = "/" + "/".join(segs[:cut]), "/".join(segs[cut:])
+            add(head + "//" + tail)
+            add(head + "//" + tail + "/")
+            add(head + "///" + tail)
+            if cut == 1:
+                add(head + "////" + tail)
+                add("//" + head[1:] + "//" + tail + "//")
+    return out
+
+
